@@ -48,6 +48,7 @@ func runC13(c *core.Ctx) {
 		return
 	}
 	T := ts[0]
+	subConstructorStoresParams(c, "C13.R0")
 	c.Note("wrapper type: %s", T)
 	// helper roles by signature
 	var nameMap, ctxMap *ssa.Function
